@@ -43,6 +43,7 @@ type LoopSpec struct {
 	Decreases *Clause
 	Lemmas    []ast.Expr
 	Assigns   []ast.Expr
+	Post      []*Clause // proved in the state at the exit of the loop, then known after it
 }
 
 type LetDef struct {
@@ -85,6 +86,7 @@ type RowLoopSpec struct {
 	Assigns []ast.Expr // loop-invariant scratch regions every iteration may write (e.g. a shared buffer row)
 	Cuts   []*Clause // proved in order at the end of the iteration, then assumed by the later cuts / posts
 	Calls  []*WrapSpec // rowcall: the iteration must establish the callee's contract on these arguments
+	Keep   bool        // rowkeep: the per-row postconditions are known (for every row of the range) to the code after the loop
 	Line   string
 }
 
@@ -321,6 +323,12 @@ func handleLine(cur **Contract, out *[]*Contract, pkgPath, text, line string) er
 				return err
 			}
 			ls.Decreases = cl
+		case "post":
+			cl, err := parseClause(body, line)
+			if err != nil {
+				return err
+			}
+			ls.Post = append(ls.Post, cl)
 		case "lemma":
 			for _, h := range splitTop(body, ';') {
 				h = strings.TrimSpace(h)
@@ -382,6 +390,11 @@ func handleLine(cur **Contract, out *[]*Contract, pkgPath, text, line string) er
 			return err
 		}
 		c.curRow.Assigns = append(c.curRow.Assigns, es...)
+	case "rowkeep":
+		if c.curRow == nil {
+			return fmt.Errorf("%s: rowkeep without rowloop", line)
+		}
+		c.curRow.Keep = true
 	case "rowcut":
 		if c.curRow == nil {
 			return fmt.Errorf("%s: rowcut without rowloop", line)
